@@ -115,7 +115,11 @@ func (c *Channel) Send(ctx context.Context, x p2p.IOVec) error {
 	}
 	return c.doThenSend(func() ([]byte, error) {
 		now := time.Now()
-		return s.Send(nil, p2p.VecBytes(nil, x), now)
+		out, err := s.Send(nil, p2p.VecBytes(nil, x), now)
+		if err == nil {
+			c.lastSent = now
+		}
+		return out, err
 	})
 }
 
